@@ -23,6 +23,7 @@ AllActs ==
   \cup {A("IndexAssign", n, NoName, Undef, i, FALSE, TRUE) : n \in Names, i \in {1, 3}}
   \cup {A(nm, n, NoName, Undef, 0, FALSE, TRUE) : nm \in {"OpAssign", "FieldAssign", "TupleElemAssign", "Eval"}, n \in Names}
   \cup {A("OpAssignVar", n, m, Undef, i, FALSE, TRUE) : n \in Names, m \in Names, i \in 1..3}
+  \cup {A("AssignFromPart", n, m, Undef, i, FALSE, TRUE) : n \in Names, m \in Names, i \in 1..4}
   \cup {A(nm, n, m, Undef, 0, FALSE, TRUE) : nm \in {"Destructure", "DestructureTooMany"}, n \in Names, m \in Names}
   \cup {[A("DestructureVar", n, m, Undef, 0, FALSE, TRUE) EXCEPT !.k = k] : n \in Names, m \in Names, k \in Names}
 
